@@ -538,7 +538,7 @@ CHECKS = {
               scn=[('MC_HsScn', {'quick': ['HsScn.cfg'], 'thorough': ['HsScn.cfg']})]),
             C('corescn', 'TestCore', 'TraceCore', file='core', n={'quick': 150, 'thorough': 1500},
               scn=[('MC_CoreScn', {'quick': ['CoreScn_as.cfg'], 'thorough': ['CoreScn_as.cfg', 'CoreScn_sy.cfg']})]),
-            T('MC_Core', 'Core_C13.cfg'), T('MC_Req', 'Req_q03.cfg'), T('MC_RepLike', 'Rep_quick.cfg'),
+            T('MC_Core', 'Core_C13.cfg'), T('MC_Core', 'Core_close_fine.cfg', workers=8), T('MC_Req', 'Req_q03.cfg'), T('MC_RepLike', 'Rep_quick.cfg'),
             T('MC_Surveyor', 'Surveyor_quick.cfg'), T('MC_RawSock', 'Raw_xpair.cfg'), T('MC_RawSock', 'Raw_xpush.cfg'),
             T('MC_Lifecycle', 'Lifecycle.cfg', workers=2),
             C('core', 'TestCore', 'TraceCore', n={'quick': 40, 'thorough': 600}, env={'VERIF_MIX': 'close'}),
@@ -575,6 +575,7 @@ CHECKS = {
             T('MC_Handshaker', 'Handshaker.cfg'), C('handshaker', 'TestHandshaker', 'TraceHandshaker'),
             T('MC_Core', 'Core_C13.cfg'),
             T('MC_Core', 'Core_C13_full.cfg', tiers=('thorough',)),
+            T('MC_Core', 'Core_close_fine.cfg', workers=8),   # socket.Close step by step, interleaved with accepts / dials / hooks (SpecFine)
             C('core', 'TestCore', 'TraceCore', n={'quick': 120, 'thorough': 1500}),
             C('errors', 'TestErrorsReal', 'TraceErrors', trivial_len=3),
             C('opts', 'TestOptions', 'TraceOptions', trivial_len=3, vtimeout=3000, env={'VERIF_OPTS_ONLY': 'ep-'}),
